@@ -435,7 +435,7 @@ def r081(prog, chk):
 
 # ----------------------------------------------------------------------------- R08.2
 NONDET_CALLS = {
-    ("dateStringForNow", "time.strftime(_date_format, time.gmtime())"): "wall clock: head.modified (and head.created when SOURCE_DATE_EPOCH is unset); property pins it through SOURCE_DATE_EPOCH",
+    ("dateStringForNow", "time.strftime('%Y/%m/%d %H:%M:%S', time.gmtime())"): "wall clock: head.modified (and head.created when SOURCE_DATE_EPOCH is unset); property pins it through SOURCE_DATE_EPOCH",
     ("dateStringForNow", "time.gmtime()"): "wall clock, see above",
     ("openTypeHeadCreatedFallback", "datetime.fromtimestamp(int(os.environ['SOURCE_DATE_EPOCH']), timezone.utc)"): "reads SOURCE_DATE_EPOCH (the documented pin)",
     ("BaseFeatureWriter._insert", "id($1)"): "identity key of AST objects inside one call (never written out)",
